@@ -533,7 +533,7 @@ func crashGenForms(g *Gen) {
 		return "(" + name + " " + strings.Join(args, " ") + ")"
 	}
 	pick := func() string { return crashArgs[r.Intn(len(crashArgs))] }
-	for _, set := range sets {
+	for si, set := range sets {
 		for _, name := range set.names {
 			cfg := set.cfg
 			// 0 arguments, in every context
@@ -552,6 +552,18 @@ func crashGenForms(g *Gen) {
 					continue
 				}
 				crashEmitText(g, "form-1", cfg, call(name, []string{a}))
+			}
+			// special forms and reserved words: every pool element as the ONLY operand and as the FIRST of
+			// several, where the form is legal — inside a loop body and inside a function body (the
+			// top-level text stops `break`/`continue`/`return` before their operands are looked at); not
+			// sampled: a guard on the operand's SHAPE (round 4, seeded/C01-m4: `(break (quote))`,
+			// `(for (quote) [..] ..)`) shows for one pool element only
+			if si < 2 {
+				for _, a := range crashArgs {
+					crashEmitText(g, "form-1-loop", cfg, "(for [(def i 0) (< i 1) (def i (+ i 1))] "+call(name, []string{a})+")")
+					crashEmitText(g, "form-1-fn", cfg, "(defn f [] "+call(name, []string{a})+") (f)")
+					crashEmitText(g, "form-first", cfg, call(name, []string{a, "[(def i 0) (< i 1) (def i (+ i 1))]", "i"}))
+				}
 			}
 			n2, n3, nctx := 8, 5, 4
 			if !quick {
